@@ -400,6 +400,19 @@ Proof.
     destruct (Hall p (or_introl eq_refl)) as [_ []].
 Qed.
 
+(** the cached vals_after at an empty work list, in terms of the generic predicates *)
+Lemma ass_after_char : forall s', sched_run (ass_step Repaired g D0) fq (ass_init g D0 M0) s' ->
+  forall c k, c < n ->
+    (ahi k = false -> (alphaA (aftD s') (aftM s') c k = true <-> reach aK n aN agen apass abnd k c)) /\
+    (ahi k = true -> (alphaA (aftD s') (aftM s') c k = false <-> fail aK n aN agen apass abnd k c)).
+Proof.
+  intros s' Hrun c k Hc.
+  destruct (sched_run_inv _ _ _ finv fmu ass_step_ok _ _ Hrun ass_init_inv)
+    as [(_ & _ & _ & _ & _ & HA & _) Hq].
+  rewrite Hq in HA.
+  apply (terminal_char aK n aN agen apass abnd ahi akeys _ HA c k Hc).
+Qed.
+
 (** characterisation of the RETURNED vals_before at an empty work list *)
 Theorem ass_terminal_char : forall s', sched_run (ass_step Repaired g D0) fq (ass_init g D0 M0) s' ->
   forall b x, b < n ->
